@@ -22,7 +22,7 @@ import propkit
 import vlib
 
 MANIFEST = {
-  "text": "proof (on the model): for allocation skeletons whose guards are exact (`dropped iff old + rows > cap`) and whose sparse row metadata is stored before the non-zero guard, every dropped request sets an overflow bit, a run without overflow bit writes exactly the requested rows (as with ample capacity), all written row / non-zero / slot indices are below capacity for every capacity >= 0, and rows, counters and overflow bits do not depend on the schedule when nothing overflows. The skeleton of every allocating kernel (constraint.py row builders, write_contact, _add_geom_pair, _compact_dofs, _next_time probes) is re-extracted from the source on every run and the model, instantiated with it, is compared with the real step on capacity sweeps. Refutations (proved on explicit builder values and replayed on the real code): the connect/weld guard drops an exactly fitting block silently; a sparse builder that returns before storing efc_J_rowadr leaves njmax_nnz overflow unflagged; collision() returning early at naconmax == 0 loses all contacts without a flag. The real step runs in a subprocess: crashes / exceptions of the real code on a capacity setting are reported as findings.",
+  "text": "proof (on the model): for allocation skeletons whose guards are exact (`dropped iff old + rows > cap`) and whose sparse row metadata is stored before the non-zero guard, every dropped request sets an overflow bit, a run without overflow bit writes exactly the requested rows (as with ample capacity), all written row / non-zero / slot indices are below capacity for every capacity >= 0, and rows, counters and overflow bits do not depend on the schedule when nothing overflows. The skeleton of every allocating kernel (constraint.py row builders, write_contact, _add_geom_pair, _compact_dofs, _next_time probes) is re-extracted from the source on every run and the model, instantiated with it, is compared with the real step on capacity sweeps. Refutations (proved on explicit builder values and replayed on the real code): the connect/weld guard drops an exactly fitting block silently; a sparse builder that returns before storing efc_J_rowadr leaves njmax_nnz overflow unflagged; collision() returning early at naconmax == 0 loses all contacts without a flag. The broadphase kernels that emit pairs through _add_geom_pair (_nxn_broadphase, _sap_broadphase) are extracted too: any use of the pair counter or the capacity other than handing them to the call fails closed, and naconmax is swept for NXN / SAP_TILE / SAP_SEGMENTED on one-contact scenes with two worlds. The real step runs in a subprocess: crashes / exceptions of the real code on a capacity setting are reported as findings.",
   "note": "trusted: Coq kernel; extractor bin/extract_alloc.py (fails closed on unknown shapes); the harness that turns an ample-capacity run into the request list; Warp CPU execution order (ascending tid). Not covered: efc_jtdaj_nblock list, CCD/hfield/flex-collision/contact-sensor buffers (flagged at the allocation site), flex builders are extracted and modelled but not exercised by the correspondence, atomics interleaved below task granularity.",
   "technique": "Rocq proof over a skeleton model + S extraction + model-vs-implementation correspondence + differential oracle (capacity sweeps against the ample run)",
   "engine": "coq",
@@ -531,6 +531,86 @@ def jtdaj_block_cases(res, rng):
   return viol
 
 
+# ---------------------------------------------------------------------------------------
+# broadphase algorithms: one-contact pairs, several worlds, naconmax sweep for NXN / SAP_TILE / SAP_SEGMENTED
+# (a pair dropped by the broadphase is visible only through d.ncollision > naconmax; with one contact per
+# pair the narrowphase cannot mask a missing BROADPHASE bit)
+# ---------------------------------------------------------------------------------------
+BP_NAMES = {0: "nxn", 1: "sap_tile", 2: "sap_segmented"}
+BP_SCENES = {
+  "spheres-on-plane": """<mujoco><worldbody><geom type="plane" size="20 20 .1"/>
+<body pos="-4 0 0.098"><freejoint/><geom type="sphere" size=".1"/></body><body pos="-2 0 0.097"><freejoint/><geom type="sphere" size=".1"/></body>
+<body pos="0 0 0.098"><freejoint/><geom type="sphere" size=".1"/></body><body pos="2 0 0.096"><freejoint/><geom type="sphere" size=".1"/></body>
+<body pos="4 0 0.098"><freejoint/><geom type="sphere" size=".1"/></body></worldbody></mujoco>""",
+  "spheres-capsule": """<mujoco><worldbody><geom type="plane" size="20 20 .1"/>
+<body pos="-2 0 0.098"><freejoint/><geom type="sphere" size=".1"/></body><body pos="-1.805 0 0.098"><freejoint/><geom type="sphere" size=".1"/></body>
+<body pos="1 0 0.098"><freejoint/><geom type="sphere" size=".1"/></body>
+<body pos="1 0 0.29"><freejoint/><geom type="capsule" size=".1 .2" euler="0 90 0"/></body>
+<body pos="3 0 0.35"><freejoint/><geom type="sphere" size=".1"/></body></worldbody></mujoco>""",
+}
+BP_NWORLD = 2
+
+
+def _bp_step(m, mm, qpos_w, naconmax):
+  import warp as wp
+
+  import mujoco_warp as mjw
+
+  d = mjw.make_data(m, nworld=BP_NWORLD, njmax=BIG_J, naconmax=int(naconmax))
+  d.qpos = wp.array(qpos_w.astype(np.float32), dtype=float)
+  mjw.step(mm, d)
+  wp.synchronize()
+  return {"overflow": d.overflow.numpy().astype(int), "ncollision": int(d.ncollision.numpy()[0]), "nacon": int(d.nacon.numpy()[0]), "qacc": d.qacc.numpy().astype(np.float64)}
+
+
+def broadphase_cases(res, rng, zskip, progress):
+  import mujoco
+
+  import mujoco_warp as mjw
+
+  lines, meta, fails = [], [], []
+  for scene, xml in BP_SCENES.items():
+    m = mujoco.MjModel.from_xml_string(xml)
+    q0 = mujoco.MjData(m).qpos.copy()
+    qpos_w = np.stack([q0, q0])
+    for j in range(m.njnt):  # second world: every body shifted a little sideways (same contacts)
+      qpos_w[1, m.jnt_qposadr[j] + 1] += 0.01 * (j + 1)
+    for bp in (0, 1, 2):
+      mm = mjw.put_model(m)
+      mm.opt.warn_overflow = False
+      mm.opt.broadphase = bp
+      progress(BIG_J, bp, BIG_CON)
+      ref = _bp_step(m, mm, qpos_w, BIG_CON)
+      if ref["overflow"].any():
+        continue
+      need_p, need_c = ref["ncollision"], ref["nacon"]
+      res.nontrivial(("bp", scene, bp, need_p, need_c))
+      for cap in range(0, max(need_p, need_c) + 2):
+        progress(BIG_J, bp, cap)
+        o = _bp_step(m, mm, qpos_w, cap)
+        res.count()
+        runs = cap > 0 or not zskip
+        bits = [int(v >> 2) & 1 for v in o["overflow"]]
+        if runs:
+          nbp = need_p
+          bpq = "[" + "; ".join(['mkT (fb "_add_geom_pair") [mkQ 0 0 1 0 0]'] * nbp) + "]"
+          lines.append(f"tvz (firstn 2 (slot_view {cap} (run_collision collision_zero_cap_skip {cap} {bpq}))) {vlib.zlist([o['ncollision'], min(bits)])}")
+          meta.append({"label": f"broadphase:{scene}:{BP_NAMES[bp]}", "naconmax": cap, "kind": "broadphase counter, full step, 2 worlds", "impl": [o["ncollision"], min(bits)]})
+        base = {
+          "label": f"broadphase:{scene}", "xml": xml, "broadphase": bp, "nworld": BP_NWORLD, "qpos_w": qpos_w.tolist(), "naconmax": cap, "njmax": BIG_J,
+          "need_pairs": need_p, "need_contacts": need_c, "overflow": o["overflow"].tolist(), "ncollision": o["ncollision"], "nacon": o["nacon"],
+        }  # fmt: skip
+        if runs and need_p > cap and min(bits) == 0:
+          fails.append(dict(base, key=f"C16:broadphase-pairs-dropped-unflagged:{BP_NAMES[bp]}", why=f"{need_p} candidate pairs, naconmax={cap}, BROADPHASE bit missing (ncollision={o['ncollision']})"))
+          continue
+        for w in range(BP_NWORLD):
+          if o["overflow"][w] == 0 and not close(o["qacc"][w], ref["qacc"][w]):
+            key = "C16:collision-skipped-unflagged:naconmax=0" if not runs else f"C16:contact-overflow-unflagged:{BP_NAMES[bp]}"
+            fails.append(dict(base, key=key, why=f"world {w}: overflow=0 but qacc differs from the ample-capacity run", qacc=o["qacc"][w].tolist(), qacc_ample=ref["qacc"][w].tolist()))
+            break
+  return lines, meta, fails
+
+
 def compact_dofs_cases(res, rng, n):
   """Real island._compact_dofs kernel vs the model (serial counter, NVMAX flag)."""
   import warp as wp
@@ -620,6 +700,7 @@ def model_specs(tier):
     specs.append(("random", k, None))
   specs.append(("cdof", 0, None))
   specs.append(("blocks", 0, None))
+  specs.append(("broadphase", 0, None))
   return specs
 
 
@@ -654,6 +735,11 @@ def worker_main(jobpath):
     if kind == "cdof":
       lines, meta, viol = compact_dofs_cases(acc, rng, 12 if quick else 120)
       emit("M", idx, {"label": "cdof", "defs": [], "lines": lines, "meta": meta, "fails": [], "viol": viol, "evals": acc.evals, "keys": acc.keys, "accepted": True, "skipped": 0})
+      continue
+    if kind == "broadphase":
+      emit("S", idx, {"label": "broadphase", "sparse": False})
+      lines, meta, bfails = broadphase_cases(acc, rng, zskip, lambda j, z, c: emit("B", idx, [j, z, c]))
+      emit("M", idx, {"label": "broadphase", "defs": [], "lines": lines, "meta": meta, "fails": bfails, "viol": [], "evals": acc.evals, "keys": acc.keys, "accepted": True, "skipped": 0})
       continue
     if kind == "blocks":
       viol = jtdaj_block_cases(acc, rng)
@@ -824,7 +910,10 @@ def run(res):
   for f in fails:
     seen.setdefault(f["key"], []).append(f)
   for key, fl in sorted(seen.items()):
-    f = min(fl, key=lambda g: (len(g["xml"]), g["njmax"], -g["njmax_nnz"]))
+    f = min(fl, key=lambda g: (len(g["xml"]), g["njmax"], -g.get("njmax_nnz", 0), g.get("naconmax", 0)))
+    if "why" in f:
+      res.violation(key, f"{f['why']}; broadphase={BP_NAMES.get(f.get('broadphase'), '?')} naconmax={f['naconmax']} nworld={f.get('nworld')} ({len(fl)} failing settings)", f)
+      continue
     if "exception" in f:
       last = f["exception"].strip().splitlines()[-1]
       res.violation(key, f"the real step raises instead of flagging the overflow: {last}; njmax={f['njmax']} njmax_nnz={f['njmax_nnz']} naconmax={f['naconmax']} ({len(fl)} failing settings)", f)
@@ -882,6 +971,24 @@ def replay1(path):
 
   wp.config.log_level = 30
   r = json.load(open(path))["replay"]
+  if "qpos_w" in r:  # broadphase sweep finding (several worlds, explicit broadphase algorithm)
+    import mujoco_warp as mjw
+
+    m = mujoco.MjModel.from_xml_string(r["xml"])
+    mm = mjw.put_model(m)
+    mm.opt.warn_overflow = False
+    mm.opt.broadphase = r["broadphase"]
+    qw = np.array(r["qpos_w"])
+    a = _bp_step(m, mm, qw, BIG_CON)
+    o = _bp_step(m, mm, qw, r["naconmax"])
+    print(f"ample: ncollision={a['ncollision']} nacon={a['nacon']} overflow={a['overflow']}")
+    print(f"naconmax={r['naconmax']}: ncollision={o['ncollision']} nacon={o['nacon']} overflow={o['overflow']}")
+    silent = [w for w in range(len(o["overflow"])) if o["overflow"][w] == 0 and not close(o["qacc"][w], a["qacc"][w])]
+    unflagged = r["naconmax"] > 0 and a["ncollision"] > r["naconmax"] and any(((v >> 2) & 1) == 0 for v in o["overflow"])
+    print("worlds with overflow=0 and qacc != ample:", silent, "| pairs dropped without BROADPHASE bit:", unflagged)
+    bad = bool(silent) or unflagged
+    print("VIOLATION reproduced" if bad else "not reproduced")
+    return 1 if bad else 0
   if "qacc_dense_newton" in r:  # Newton block list finding: sparse Newton vs dense Newton on the same model
     q = {}
     for jac in ("dense", "sparse"):
